@@ -76,7 +76,11 @@ impl Blob {
         }
 
         let mut limited = reader.take(self.length);
-        copy(&mut limited, writer).read_err("Failed to read binary blob data")
+        let length = copy(&mut limited, writer).read_err("Failed to read binary blob data")?;
+        if length != self.length {
+            Error::invalid("The file ends before the end of the binary blob data")?
+        }
+        Ok(length)
     }
 
     pub(crate) fn write<T: Read + Write + Seek>(
